@@ -208,7 +208,7 @@ def gen_case(rng, max_ops, mirror=False, ncomp=5):
                 m = rng.weighted([("none", 2), ("dupid", 4), ("setid", 3), ("gen", 2), ("freeadd", 3), ("freedel", 3),
                                   ("freedup", 2), ("freelive", 3), ("len", 3), ("alen", 2), ("byte", 4), ("addbyte", 1),
                                   ("delbyte", 1), ("delval", 2), ("addval", 2), ("poison", 3), ("delrow", 3), ("duprow", 3),
-                                  ("delarch", 2), ("duparch", 2), ("emptyarch", 2)])
+                                  ("delarch", 2), ("duparch", 2), ("emptyarch", 3), ("freeold", 3)])
                 a = [rng.below(8) for _ in range(4)]
                 if m == "setid":
                     return "setid %d %d %d %d" % (a[0], a[1], rng.below(12), rng.below(3))
@@ -223,7 +223,11 @@ def gen_case(rng, max_ops, mirror=False, ncomp=5):
                 if m == "byte":
                     return "byte %d %d %d" % (a[0], a[1], 1 << rng.below(8))
                 if m == "emptyarch":
-                    return "emptyarch %d %d" % (rng.below(256), rng.below(256))
+                    # identifier bytes of an archetype nobody stored: any byte, or a single bit (a component alone,
+                    # or exactly one of the padding bits past the registry's last component)
+                    def byte_():
+                        return rng.below(256) if rng.chance(1, 3) else (1 << rng.below(8)) | (rng.below(32) if rng.chance(1, 4) else 0)
+                    return "emptyarch %d %d" % (byte_(), byte_())
                 if m in ("delrow", "duprow"):
                     return "%s %d %d %d" % (m, a[0], a[1], rng.below(2))
                 return ("%s %d %d %d %d" % (m, a[0], a[1], a[2], a[3])) if m != "none" else "none"
@@ -250,6 +254,44 @@ def gen_case(rng, max_ops, mirror=False, ncomp=5):
     return lines
 
 
+PAR_SHAPES = {5: [0b00001, 0b00011, 0b00110, 0b01101, 0b11111, 0b10100, 0b01000], 16: None}
+
+
+def gen_par_case(rng, ncomp=5):
+    """Archetypes with enough rows for rayon to split them unevenly (3, 5, 6, 7, 9, 13 rows), some lacking the
+    optionally viewed component, then parallel queries (read and write) next to their sequential counterparts."""
+    tok = [3000]
+
+    def fresh():
+        tok[0] += 1
+        return tok[0]
+    lines = ["new 0 %d %d %d %d" % (fresh(), fresh(), fresh(), fresh())]
+    pal = PAR_SHAPES[ncomp] or [m for m in PALETTE16 if 0 < bin(m).count("1") <= 6]
+    shapes = [rng.choice(pal) for _ in range(rng.choice([1, 2, 2, 3]))]
+    issued = 0
+    for m in shapes:
+        cs = [k for k in range(ncomp) if m >> k & 1]
+        rows = rng.choice([3, 5, 6, 7, 9, 13])
+        vals = " ".join(str(fresh()) for _ in range(rows * len(cs)))
+        lines.append(("ext 0 0 %d %s %d %s" % (len(cs), " ".join(map(str, cs)), rows, vals)).replace("  ", " ").strip())
+        issued += rows
+    fam = QFAM[ncomp]
+    optq = [k for k, (vs, f) in enumerate(fam) if any(kd in ("or", "om") for kd, _ in vs)] or list(range(len(fam)))
+    for _ in range(rng.choice([3, 4, 6])):
+        k = rng.choice(optq) if rng.chance(3, 4) else rng.below(len(fam))
+        vs, f = fam[k]
+        r = rng.below(4)
+        if r == 0:
+            lines.append("pqwr 0 %d %d %s %s" % (k, 1 + rng.below(1000), views_text(vs), filter_text(f)))
+        elif r == 1 and issued:
+            lines.append("rem 0 #%d" % rng.below(issued))
+        else:
+            lines.append("pqry 0 %d %s %s" % (k, views_text(vs), filter_text(f)))
+            if rng.chance(1, 3):
+                lines.append("qry 0 %d %s %s %d" % (k, views_text(vs), filter_text(f), 0))
+    return lines
+
+
 def gen_cases(seed, count, max_ops):
     """About two thirds of the histories run on the 5-component registry, the rest on the 16-component one
     (marked by a first line `%reg 16`)."""
@@ -262,6 +304,11 @@ def gen_cases(seed, count, max_ops):
     nf = count // 2
     out[count - n16:count - n16] = [gen_fault_case(frng.fork(), 5) for _ in range(nf - nf // 4)]
     out += [["%reg 16"] + gen_fault_case(frng.fork(), 16) for _ in range(nf // 4)]
+    # parallel-iteration cases (C09): archetypes long enough to be split
+    prng = SplitMix(seed * 17 + 3)
+    npar = max(8, count // 8)
+    out += [gen_par_case(prng.fork(), 5) for _ in range(npar - npar // 3)]
+    out += [["%reg 16"] + gen_par_case(prng.fork(), 16) for _ in range(npar // 3)]
     return out
 
 
@@ -1139,6 +1186,7 @@ def oracle_case(impl_case):
     known = []
     corners = set()
     prev_lines = {}
+    prev_live = {}
     for i, st in enumerate(impl_case["steps"]):
         t = st["op"].split()
         k = t[0]
@@ -1300,9 +1348,20 @@ def oracle_case(impl_case):
             srcs = {int(t[2])}
         elif k == "srd":
             srcs = {int(t[2])}
+        # (the `live` line lists which of the identifiers issued so far resolve: an identifier issued by this very
+        #  operation in another world may coincide with one a deserialized world already holds — not a change)
+        new_ids = set()
+        if k in ("ins", "ext", "xrg") and (st["ret"] or "").startswith("id"):
+            new_ids = {eid(x) for x in st["ret"].split()[1:]}
+
+        def _nolive(ls):
+            return [l_ for l_ in ls if l_.split()[2:3] != ["live"]]
         for ws, w in st["worlds"].items():
-            if (ws not in named or ws in srcs) and ws in prev_lines and prev_lines[ws] != w["lines"]:
-                fails.append((i, "C10", "world %d changed by an operation on another world: %s" % (ws, st["op"])))
+            if (ws not in named or ws in srcs) and ws in prev_lines:
+                same = _nolive(prev_lines[ws]) == _nolive(w["lines"]) and \
+                    (set(w["live"]) - new_ids) == (prev_live.get(ws, set()) - new_ids)
+                if not same:
+                    fails.append((i, "C10", "world %d changed by an operation on another world: %s" % (ws, st["op"])))
         # C10 content: destination equals source after cln/clf
         if k in ("cln", "clf"):
             s, d = (int(t[1]), int(t[2])) if k == "cln" else (int(t[2]), int(t[1]))
@@ -1338,6 +1397,7 @@ def oracle_case(impl_case):
                         if pa == {a, b} and po[0] != "clf":
                             fails.append((i, "C16", "copy made by %s does not compare equal to its source" % po[0]))
         prev_lines = {ws: w["lines"] for ws, w in st["worlds"].items()}
+        prev_live = {ws: set(w["live"]) for ws, w in st["worlds"].items()}
     if impl_case["audit"] is not None and impl_case["audit"].strip() != "audit live=[] double=[]":
         import re as _re
         aud = impl_case["audit"]
